@@ -57,7 +57,7 @@ pub fn build(case: &Value) -> Built {
     let o = d.stream(5, 0, "/Type /Metadata /Subtype /XML", &meta, None, false);
     e.push((5, XEntry::InUse { off: o, gen: 0 }));
     // baseline string object 9
-    let o = d.obj(9, 0, format!("<< /S {} >>", hexs(&h.encrypt(9, 0, b"baseline"))).as_bytes());
+    let o = d.obj(9, 0, format!("<< /S {} >>", hexs(&if h.dict_form == "strf-identity" { b"baseline".to_vec() } else { h.encrypt(9, 0, b"baseline") })).as_bytes());
     e.push((9, XEntry::InUse { off: o, gen: 0 }));
     // the target
     let (mut target, mut tgen_used) = (tid, tgen);
@@ -82,7 +82,8 @@ pub fn build(case: &Value) -> Built {
         "string-bare" => { let o = d.obj(tid, tgen, hexs(&h.encrypt(tid, tgen, &pt)).as_bytes()); e.push((tid, XEntry::InUse { off: o, gen: tgen })); }
         "string-in-array" => { let o = d.obj(tid, tgen, format!("[{} 7]", hexs(&h.encrypt(tid, tgen, &pt))).as_bytes()); e.push((tid, XEntry::InUse { off: o, gen: tgen })); }
         "string-nested" => { let o = d.obj(tid, tgen, format!("<< /A [ 1 << /S {} >> ] /T 4 >>", hexs(&h.encrypt(tid, tgen, &pt))).as_bytes()); e.push((tid, XEntry::InUse { off: o, gen: tgen })); }
-        _ => { let o = d.obj(tid, tgen, format!("<< /S {} /T 3 >>", hexs(&h.encrypt(tid, tgen, &pt))).as_bytes()); e.push((tid, XEntry::InUse { off: o, gen: tgen })); }
+        // (with /StrF /Identity strings are stored as they are)
+        _ => { let st = if h.dict_form == "strf-identity" { pt.clone() } else { h.encrypt(tid, tgen, &pt) }; let o = d.obj(tid, tgen, format!("<< /S {} /T 3 >>", hexs(&st)).as_bytes()); e.push((tid, XEntry::InUse { off: o, gen: tgen })); }
     }
     let direct = place == "encrypt-dict-direct";
     if !direct {
@@ -140,7 +141,8 @@ pub fn run(cases_path: &str, report_path: &str, _opts: &[String]) {
         let b = build(case);
         let pw: &[u8] = match pwrel { "user" => b"userpw", "owner" => b"ownerpw", "empty-user" => b"", _ => b"nope" };
         let pt = plaintext(case["len"].as_str().unwrap());
-        let class_tail = format!("{}:{}:{}", case["variant"].as_str().unwrap(), place, pwrel);
+        let dform = case["dform"].as_str().unwrap_or("plain");
+        let class_tail = if dform == "plain" { format!("{}:{}:{}", case["variant"].as_str().unwrap(), place, pwrel) } else { format!("{}:{}:{}:{}", case["variant"].as_str().unwrap(), place, pwrel, dform) };
         let fail = |rep: &mut Report, what: &str, extra: Value| {
             let mut d = json!({"case_index": ci, "case": case});
             for (k, v) in extra.as_object().unwrap() { d[k] = v.clone(); }
@@ -223,7 +225,7 @@ fn kdf_case(rep: &mut Report, case: &Value) {
     let mut e: Vec<(u64, XEntry)> = vec![(0, XEntry::Free { next: 0, gen: 65535 })];
     let o = d.obj(1, 0, b"<< /Type /Catalog /Pages 2 0 R >>"); e.push((1, XEntry::InUse { off: o, gen: 0 }));
     let o = d.obj(2, 0, &empty_pages_body()); e.push((2, XEntry::InUse { off: o, gen: 0 }));
-    let o = d.obj(9, 0, format!("<< /S {} >>", hexs(&h.encrypt(9, 0, b"baseline"))).as_bytes()); e.push((9, XEntry::InUse { off: o, gen: 0 }));
+    let o = d.obj(9, 0, format!("<< /S {} >>", hexs(&if h.dict_form == "strf-identity" { b"baseline".to_vec() } else { h.encrypt(9, 0, b"baseline") })).as_bytes()); e.push((9, XEntry::InUse { off: o, gen: 0 }));
     let o = d.stream(3, 0, "/T 1", &h.encrypt(3, 0, b"stream plaintext"), None, false); e.push((3, XEntry::InUse { off: o, gen: 0 }));
     let o = d.obj(8, 0, h.dict().as_bytes()); e.push((8, XEntry::InUse { off: o, gen: 0 }));
     d.xref_table(&e, 10, &format!("/Root 1 0 R /Encrypt 8 0 R /ID [{} {}]", hexs(ID0), hexs(&ID0.iter().rev().copied().collect::<Vec<u8>>())), None, Split::Min);
